@@ -309,13 +309,15 @@ func OpenRelation(dbName string, forceWALSync bool) (*RelationService, error) {
 	if !exists {
 		return nil, ErrDBNotExist
 	}
-	fs, err := newFileStore(path, true)
+	fs, err := newFileStore(path, false)
 	if err != nil {
 		return nil, err
 	}
 	if err := fs.open(); err != nil {
 		return nil, err
 	}
+	// only now: the flusher writes the header fields that open has just read
+	fs.startFlusher()
 	wal, err := newWal(dbName, forceWALSync)
 	if err != nil {
 		return nil, err
